@@ -1,13 +1,15 @@
 """C07 — serialize then parse is the identity on conforming documents."""
+import os
 from h5 import conf, gen, lean, lexical, trees, wire
 
 ID = "C07"
 PROPS_MODULE = "H5.Props.C07"
 # C07b: the END-TO-END identity theorem on the models for the explicit grammar G0 (H5.Props.C07bGrammar):
 #   C07_identity : G0 t -> Pipeline.roundTrip {} {omitOptionalTags := false} t = ok (t, out, [])     C07_no_errors
+EXTRA_EXES = ["driver_g0"]     # op g0 (grammar membership decided by the Lean definition), separate from the main driver
 # the top module states the end-to-end theorems (C07_identity, C07_no_errors, roundTrip_doc); `#print axioms` on them covers the
 # 21 helper modules (C07bTok*, C07bStep*, C07bRun*, ...) transitively, and the forbidden-token grep covers their sources
-EXTRA_PROPS_MODULES = ["H5.Props.C07b", "H5.Props.C07bGrammar"]
+EXTRA_PROPS_MODULES = ["H5.Props.C07b", "H5.Props.C07bGrammar", "H5.Props.C08Tables"]
 
 GEN_MODULES = ["Serializer", "OptionalTags", "Constants", "Dispatch", "ParserLiterals"]
 CORRESPONDENCE_OPS = ["roundtrip"]
@@ -141,7 +143,7 @@ READER_RAW = {"script", "style", "xmp", "iframe", "noembed", "noframes"}     # r
 
 def t_bool(t, opts):
     """recorded: minimize_boolean_attributes drops the value of an attribute listed in booleanAttributes"""
-    from html5lib.constants import booleanAttributes as BA
+    from h5.lexical import BOOLEAN_ATTRIBUTES_PINNED as BA   # pinned: see lexical.py
     if t[0] in ("doc", "frag"):
         return (t[0], [t_bool(k, opts) for k in t[1]])
     if t[0] == "elem":
@@ -250,7 +252,7 @@ def classify(doc, opts, encoding=None, kind="etree"):
 
 def classify_features(doc, opts):
     """descriptive label from the features of the minimal document (never used for a recorded class)"""
-    from html5lib.constants import booleanAttributes as BA
+    from h5.lexical import BOOLEAN_ATTRIBUTES_PINNED as BA   # pinned: see lexical.py
     els = names_in(doc, [])
     if opts.get("minimize_boolean_attributes", True) and any(
             (n in BA.get(e[2], ()) or n in BA.get("", ())) and v != "" for e in els for _, n, v in e[3]):
@@ -399,9 +401,10 @@ def g0_real(doc, kind):
 
 def g0_identity(ctx, docs, reqs, reals):
     """docs: [(source label, document)].  Lean decides membership (op g0); members are checked on the real library."""
-    if not ctx.driver_ok or not docs:
+    if not getattr(ctx, "aux_ok", {}).get("driver_g0") or not docs:
+        ctx.count("G0-identity:skipped (driver_g0 not built)")
         return
-    answers = lean.run_driver(["g0 " + trees.enc_tree(d) for _, d in docs])
+    answers = lean.run_driver(["g0 " + trees.enc_tree(d) for _, d in docs], exe=os.path.join(lean.LEAN, ".lake", "build", "bin", "driver_g0"))
     for (src, doc), ans in zip(docs, answers):
         if ans not in ("ok 1", "ok 0"):
             ctx.fail("g0-op-bad-answer", "the driver did not decide G0 membership", {"answer": ans[:200], "tree": trees.enc_tree(doc)[:400]})
